@@ -91,6 +91,7 @@ type opRec struct {
 	selfEnds  int
 	selfErrs  int
 	cancelled bool // the executor observed its context being cancelled
+	cancelAt  int  // length of the trace at that moment
 	seq       int
 }
 
@@ -377,7 +378,7 @@ func (e *executor) Execute(w resolve.SubscriptionResponseWriter) error {
 		r.update(func() { op.parked = true })
 		select {
 		case <-ctx.Done():
-			r.update(func() { op.cancelled = true; op.parked = false })
+			r.update(func() { op.cancelled = true; op.parked = false; op.cancelAt = len(r.log) })
 			switch {
 			case r.opts.cancel == "err":
 				return ctx.Err()
@@ -429,6 +430,7 @@ type opTruth struct {
 	SelfEnds  int
 	SelfErrs  int
 	Cancelled bool
+	CancelAt  int // length of the trace when the executor saw its context cancelled
 }
 
 type runResult struct {
@@ -735,7 +737,7 @@ func (r *rig) snapshotOpsLocked() map[int]opTruth {
 	out := make(map[int]opTruth, len(r.ops))
 	for t, op := range r.ops {
 		out[t] = opTruth{Token: op.token, ID: op.id, Kind: op.kind, Gets: op.gets, Entered: op.entered, ExecCalls: op.execCalls,
-			Put: op.put, Emitted: append([]string(nil), op.emitted...), SelfEnd: op.selfEnd, SelfEnds: op.selfEnds, SelfErrs: op.selfErrs, Cancelled: op.cancelled}
+			Put: op.put, Emitted: append([]string(nil), op.emitted...), SelfEnd: op.selfEnd, SelfEnds: op.selfEnds, SelfErrs: op.selfErrs, Cancelled: op.cancelled, CancelAt: op.cancelAt}
 	}
 	return out
 }
@@ -748,8 +750,11 @@ func (r *rig) dupRejectedLocked(op *opRec) bool {
 	}
 	seen := false
 	for _, e := range r.log {
-		if e.Kind == 'C' && e.Step == op.token {
-			seen = true
+		if e.Kind == 'C' {
+			if seen {
+				return false // the refusal is written while the start is being handled, before the next message is taken
+			}
+			seen = e.Step == op.token
 			continue
 		}
 		if seen && e.Kind == 'S' && strings.Contains(e.Raw, "already exists") && strings.Contains(e.Raw, `"id":"`+op.id+`"`) {
